@@ -62,6 +62,10 @@ def gen_data(rng, drops=False):
         if rng.chance(0.85):
             vars_[name] = rng.choice(DATA_POOL[name])
     spec = {"vars": vars_, "drops": []}
+    st = {n: rng.choice(["deque", "userlist", "tuple"]) for n in ("items", "words", "objs", "nested")
+          if n in vars_ and rng.chance(0.12)}
+    if st:
+        spec["seqtypes"] = st
     if drops:
         spec["drops"] = [n for n in ("user", "objs", "nested") if n in vars_ and rng.chance(0.6)]
         if rng.chance(0.7):
